@@ -26,6 +26,20 @@ type featureBlock struct {
 	NamespaceTable *NamespaceTable
 }
 
+// holdsNamespace returns true if the block holds the features of type t for
+// the namespace ns, where ns is encoded with the namespace table of the block
+// from. Blocks merged from different index files have different namespace
+// tables, so encoded namespaces can't be compared directly.
+func (fb *featureBlock) holdsNamespace(t b6.FeatureType, ns Namespace, from *featureBlock) bool {
+	if fb.NamespaceTable != from.NamespaceTable {
+		var ok bool
+		if ns, ok = fb.NamespaceTable.MaybeEncode(from.NamespaceTable.Decode(ns)); !ok {
+			return false
+		}
+	}
+	return fb.Namespaces[t] == ns
+}
+
 const FeaturesByIDCacheSize = 4000 // Empirically the working-set size of Galashiels
 
 type FeaturesByID struct {
@@ -722,16 +736,19 @@ func (f *FeaturesByID) FindAreasByPoint(id b6.FeatureID) b6.AreaFeatures {
 					paths = p.Paths
 				}
 			}
-			areas := make(map[Reference]struct{})
+			// Areas are keyed by decoded ID, since the references of paths
+			// from different index files use different namespace tables.
+			areas := make(map[b6.FeatureID]struct{})
 			var p Path
 			for _, path := range paths {
 				for _, pm := range f.features[b6.FeatureTypePath] {
 					_, ns := path.TypeAndNamespace.Split()
-					if pm.Namespaces[b6.FeatureTypePath] == ns {
+					if pm.holdsNamespace(b6.FeatureTypePath, ns, fb) {
 						if b := pm.Map.FindFirstWithTag(path.Value, encoding.NoTag); len(b) > 0 {
 							p.Unmarshal(&pm.Namespaces, b)
 							for _, area := range p.Areas {
-								areas[area] = struct{}{}
+								_, ns := area.TypeAndNamespace.Split()
+								areas[b6.FeatureID{Type: b6.FeatureTypeArea, Namespace: pm.NamespaceTable.Decode(ns), Value: area.Value}] = struct{}{}
 							}
 							break
 						}
@@ -740,8 +757,7 @@ func (f *FeaturesByID) FindAreasByPoint(id b6.FeatureID) b6.AreaFeatures {
 			}
 			for area := range areas {
 				for _, am := range f.features[b6.FeatureTypeArea] {
-					_, ns := area.TypeAndNamespace.Split()
-					if am.Namespaces[b6.FeatureTypeArea] == ns {
+					if ns, ok := am.NamespaceTable.MaybeEncode(area.Namespace); ok && am.Namespaces[b6.FeatureTypeArea] == ns {
 						if a := f.newArea(am, area.Value); a != nil {
 							features = append(features, a)
 							break
@@ -927,9 +943,11 @@ func (f *FeaturesByID) fillRelationsFromPoint(fb *featureBlock, id uint64, relat
 		p.Unmarshal(&fb.Namespaces, t.Data)
 		for _, r := range p.Relations {
 			for _, rm := range f.features[b6.FeatureTypeRelation] {
-				if _, ns := r.TypeAndNamespace.Split(); ns == rm.Namespaces[b6.FeatureTypeRelation] {
-					relations = append(relations, f.newRelation(rm, r.Value))
-					break
+				if _, ns := r.TypeAndNamespace.Split(); rm.holdsNamespace(b6.FeatureTypeRelation, ns, fb) {
+					if relation := f.newRelation(rm, r.Value); relation != nil {
+						relations = append(relations, relation)
+						break
+					}
 				}
 			}
 		}
@@ -944,9 +962,11 @@ func (f *FeaturesByID) fillRelationsFromPath(fb *featureBlock, id uint64, relati
 		p.Unmarshal(&fb.Namespaces, b)
 		for _, r := range p.Relations {
 			for _, rm := range f.features[b6.FeatureTypeRelation] {
-				if _, ns := r.TypeAndNamespace.Split(); ns == rm.Namespaces[b6.FeatureTypeRelation] {
-					relations = append(relations, f.newRelation(rm, r.Value))
-					break
+				if _, ns := r.TypeAndNamespace.Split(); rm.holdsNamespace(b6.FeatureTypeRelation, ns, fb) {
+					if relation := f.newRelation(rm, r.Value); relation != nil {
+						relations = append(relations, relation)
+						break
+					}
 				}
 			}
 		}
@@ -961,9 +981,11 @@ func (f *FeaturesByID) fillRelationsFromArea(fb *featureBlock, id uint64, relati
 		a.Unmarshal(&fb.Namespaces, b)
 		for _, r := range a.Relations {
 			for _, rm := range f.features[b6.FeatureTypeRelation] {
-				if _, ns := r.TypeAndNamespace.Split(); ns == rm.Namespaces[b6.FeatureTypeRelation] {
-					relations = append(relations, f.newRelation(rm, r.Value))
-					break
+				if _, ns := r.TypeAndNamespace.Split(); rm.holdsNamespace(b6.FeatureTypeRelation, ns, fb) {
+					if relation := f.newRelation(rm, r.Value); relation != nil {
+						relations = append(relations, relation)
+						break
+					}
 				}
 			}
 		}
@@ -978,9 +1000,11 @@ func (f *FeaturesByID) fillRelationsFromRelation(fb *featureBlock, id uint64, re
 		r.Unmarshal(b6.FeatureTypePath, &fb.Namespaces, b)
 		for _, rr := range r.Relations {
 			for _, rm := range f.features[b6.FeatureTypeRelation] {
-				if _, ns := rr.TypeAndNamespace.Split(); ns == rm.Namespaces[b6.FeatureTypeRelation] {
-					relations = append(relations, f.newRelation(rm, rr.Value))
-					break
+				if _, ns := rr.TypeAndNamespace.Split(); rm.holdsNamespace(b6.FeatureTypeRelation, ns, fb) {
+					if relation := f.newRelation(rm, rr.Value); relation != nil {
+						relations = append(relations, relation)
+						break
+					}
 				}
 			}
 		}
